@@ -18,6 +18,9 @@ import (
 const cssMinT = load.Mod + "/css.cssMinifier"
 
 func init() {
+	mutant(&Mutant{Name: "c04-unknown-function-arguments-at-top-level", Property: "C04", File: "css/css.go",
+		Old: "values[i].Args = c.minifyTokens(prop, unknownFunction, values[i].Args)", New: "values[i].Args = c.minifyTokens(prop, fun, values[i].Args)",
+		Rule: "R04.25", Construct: "is marked as inside a function"})
 	mutant(&Mutant{Name: "c09-template-with-escaped-dollar-hex", Property: "C09", File: "js/util.go",
 		Old: "\t\t\t\t} else if b[i+2] == '2' && b[i+3] == '4' || b[i+2] == '7' && b[i+3]|0x20 == 'b' {\n\t\t\t\t\tallowTemplate = false // $ or {, decoded they may form ${\n", New: "\t\t\t\t} else if b[i+2] == '2' && b[i+3] == '4' {\n\t\t\t\t\tallowTemplate = false // $ or {, decoded they may form ${\n",
 		Rule: "R09.22", Construct: "rules the template out"})
@@ -243,6 +246,7 @@ func runC04(c *Ctx) {
 	c.r0421(pk)
 	c.r0422(pk)
 	c.r0424(pk)
+	c.r0425(pk)
 	// positions remembered while rewriting a value list (background layers) stay valid: same rule as R10.5, css only
 	c.alsoUnder(map[string]string{"R10.5": "R04.8"}, func(construct string) bool {
 		return strings.HasPrefix(construct, "css.") || strings.HasPrefix(construct, "floor/")
@@ -1840,4 +1844,64 @@ func (c *Ctx) r0424(pk *packages.Package) {
 		return true
 	})
 	c.R.Floor(rule, "stores of initialBytes into the value list", n, 3)
+}
+
+// R04.25: the arguments of every function are below the top level.
+func (c *Ctx) r0425(pk *packages.Package) {
+	const rule = "R04.25"
+	c.R.Rule(rule, "cssMinifier.minifyTokens drops the unit of a zero length only at the top level of a value (`fun == 0`): inside a function the unit can be required — the arguments of hypot(), abs(), mod(), calc-size() must agree in type, and a number is not a length there. The function is told where it is by the hash of the enclosing function's name, which is 0 for every name that is not in the hash table. Every recursive call for the arguments of a function passes a value that is known not to be 0: a non-zero constant, or a variable under the false outcome of `v == 0` (true outcome of `v != 0`)")
+	info := pk.TypesInfo
+	fd := c.fn(rule, pk, "cssMinifier.minifyTokens")
+	if fd == nil {
+		return
+	}
+	g := c.graph(pk, fd)
+	self := info.Defs[fd.Name]
+	n := 0
+	for _, y := range g.Nodes {
+		a := y.Ast()
+		if a == nil || y.Kind != flow.KStmt {
+			continue
+		}
+		for _, ce := range allCalls(a) {
+			if callee(info, ce) != self || len(ce.Args) != 3 {
+				continue
+			}
+			n++
+			arg := ast.Unparen(ce.Args[1])
+			good, why := false, ""
+			if v, isK := intConst(info, arg); isK {
+				good = v != 0
+				why = "the constant 0 is passed"
+			} else {
+				as := nospace(str(arg))
+				for _, f := range g.DomFacts(y) {
+					if f.Test.Kind != flow.KCond {
+						continue
+					}
+					be, ok := ast.Unparen(f.Test.Expr).(*ast.BinaryExpr)
+					if !ok {
+						continue
+					}
+					var other ast.Expr
+					if nospace(str(be.X)) == as {
+						other = be.Y
+					} else if nospace(str(be.Y)) == as {
+						other = be.X
+					} else {
+						continue
+					}
+					if v, isK := intConst(info, other); isK && v == 0 {
+						if be.Op == token.EQL && !f.Value || be.Op == token.NEQ && f.Value {
+							good = true
+						}
+					}
+				}
+				why = as + " is the hash of the function's name, which is 0 for a function that is not in the hash table"
+			}
+			c.R.Check(good, rule, fmt.Sprintf("css.cssMinifier.minifyTokens/recursion into function arguments#%d is marked as inside a function", n), c.pos(ce), "a value known not to be 0",
+				"the arguments of a function are minified as if they stood at the top level of the value — "+why+": `width:hypot(0px,3px)` → `hypot(0,3px)` and `abs(0px)` → `abs(0)`, which are not lengths")
+		}
+	}
+	c.R.Floor(rule, "recursive calls of minifyTokens", n, 1)
 }
